@@ -274,11 +274,65 @@ def _check_dep_coverage(ctx, model, dm):
     mem = model.lookup(dm, "combine")
     ok = False
     if mem is not None and mem.kind == "func":
-        src = ast.unparse(mem.node).replace(" ", "")
-        ok = "reduce(operator.or_,values,set())" in src
+        verdict = _is_union_of_all(mem.node)
+        if verdict is None:
+            raise AnalysisError("Collector.combine: the way the child results "
+                                "are joined is not one the checker can read")
+        ok = verdict
     ctx.ob("K/DependencyMapper/combine", ok, where(mem) if mem else dm.loc(),
            "combine = union of all child results" if ok else
            "combine is not reduce(operator.or_, values, set())")
+
+
+def _is_union_of_all(fn):
+    """does fn(self, values) return the union of all of values, starting from an
+    empty set?  True / False (recognised but something else) / None (unknown)"""
+    params = [a.arg for a in fn.args.args]
+    if len(params) < 2:
+        return None
+    vals = params[1]
+    U = lambda n: ast.unparse(n).replace(" ", "")     # noqa: E731
+    empty = ("set()", "frozenset()")
+    rets = [st for st in ast.walk(fn) if isinstance(st, ast.Return)]
+    if len(rets) != 1 or rets[0].value is None:
+        return None
+    rv = rets[0].value
+    if isinstance(rv, ast.Call) and U(rv.func) in ("reduce", "functools.reduce"):
+        a = rv.args
+        if len(a) < 2 or U(a[1]) != vals:
+            return None
+        op = U(a[0])
+        union_ops = ("operator.or_", "or_", "set.union", "frozenset.union",
+                     "lambdaa,b:a|b", "lambdax,y:x|y")
+        if op in ("operator.and_", "and_", "set.intersection",
+                  "operator.sub", "operator.xor", "set.difference"):
+            return False
+        if op not in union_ops:
+            return None
+        if len(a) < 3:
+            return False        # no start value: fails on a node without children
+        return U(a[2]) in empty
+    if isinstance(rv, ast.Call) and isinstance(rv.func, ast.Attribute) and \
+            rv.func.attr == "union" and U(rv.func.value) in empty and \
+            len(rv.args) == 1 and isinstance(rv.args[0], ast.Starred) and \
+            U(rv.args[0].value) == vals:
+        return True
+    if isinstance(rv, ast.Name):
+        acc = rv.id
+        init = [st for st in fn.body if isinstance(st, ast.Assign)
+                and U(st.targets[0]) == acc]
+        loops = [st for st in fn.body if isinstance(st, ast.For)
+                 and U(st.iter) == vals and isinstance(st.target, ast.Name)]
+        if len(init) == 1 and U(init[0].value) in empty and len(loops) == 1 \
+                and len(loops[0].body) == 1:
+            x = loops[0].target.id
+            b = U(loops[0].body[0])
+            if b in (f"{acc}|={x}", f"{acc}.update({x})", f"{acc}={acc}|{x}",
+                     f"{acc}={acc}.union({x})"):
+                return True
+            if b in (f"{acc}&={x}", f"{acc}={x}"):
+                return False
+    return None
 
 
 def _check_cached_dep(ctx, model, dm, cdm):
